@@ -706,6 +706,13 @@ class SSHChannel(Generic[AnyStr], SSHPacketHandler):
 
         self.logger.info('Received channel close')
 
+        # If writing is paused, the session may be waiting for room in the
+        # send buffer before it gets to read again. As unsent data is now
+        # discarded, that would never end, so don't let undelivered data
+        # hold up the close in this case: deliver it regardless of the pause.
+        if self._send_paused and self._recv_paused is True:
+            self._recv_paused = False
+
         self._close_send()
 
         self._recv_eof_on_close = self._recv_state == 'eof_pending'
